@@ -7,12 +7,12 @@ use starknet_crypto::Felt;
 use swiftness_pow::{config::Config, pow::{verify_pow, UnsentCommitment}};
 use swiftness_transcript::{transcript::Transcript, verif};
 
-fn lz(h: &[u8]) -> u32 {
+pub fn lz(h: &[u8]) -> u32 {
     let mut n = 0;
     for b in h { if *b == 0 { n += 8; } else { n += b.leading_zeros(); break; } }
     n
 }
-fn h2(digest: &[u8; 32], n_bits: u8, nonce: u64) -> [u8; 32] {
+pub fn h2(digest: &[u8; 32], n_bits: u8, nonce: u64) -> [u8; 32] {
     let mut pre = Vec::with_capacity(41);
     pre.extend_from_slice(&0x0123456789abcdedu64.to_be_bytes());
     pre.extend_from_slice(digest);
